@@ -326,7 +326,13 @@ def fill_signature(fn: ast.FunctionDef, ci: CacheInfo, bools: Dict[str, bool]):
     st = select(fn.body)
     if st is None:
         return None
-    used = sorted(n.id for n in ast.walk(st.value) if isinstance(n, ast.Name) and n.id in bools)
+    # a conditional expression on a boolean argument selects one of its arms:  f(x, s) if reflected else g(x)
+    value = st.value
+    arms = []
+    while isinstance(value, ast.IfExp) and isinstance(value.test, ast.Name) and value.test.id in bools:
+        arms.append((value.test.id, bools[value.test.id]))
+        value = value.body if bools[value.test.id] else value.orelse
+    used = sorted({n.id for n in ast.walk(value) if isinstance(n, ast.Name) and n.id in bools} | {a for a, _ in arms})
     return (ci.fill_nodes.index(st), tuple((u, bools[u]) for u in used))
 
 
